@@ -235,9 +235,10 @@ def apalache(ctx, module, cfg, init, inv, length, expect_error=False, timeout=60
     """Bounded symbolic check with Apalache (used for inductive invariants: --init=<any state satisfying the invariant>,
     --length=1). Raises NoVerdict when the outcome is not the expected one (a design-level result, never a verdict about code)."""
     d = ctx.sub("apalache-%s-%s-%d" % (cfg.replace(".cfg", ""), init, int(time.time() * 1000 % 1000000)))
-    for f in os.listdir(SPEC):
-        if f.endswith(".tla") or f.endswith(".cfg"):
-            shutil.copyfile(os.path.join(SPEC, f), os.path.join(d, f))
+    for sub in ("", "apalache"):      # spec/apalache/: modules that EXTEND Apalache's own standard module (SANY / TLC cannot parse them)
+        for f in os.listdir(os.path.join(SPEC, sub)):
+            if f.endswith(".tla") or f.endswith(".cfg"):
+                shutil.copyfile(os.path.join(SPEC, sub, f), os.path.join(d, f))
     t = time.time()
     rc, out = sh(["apalache-mc", "check", "--config=" + cfg, "--init=" + init, "--inv=" + inv, "--length=%d" % length,
                   "--out-dir=" + os.path.join(d, "out"), module + ".tla"], timeout=timeout, cwd=d)
